@@ -34,7 +34,7 @@ class Tree(object):
     def url(self, path):
         return 'file://localhost' + path
 
-    def task_dict(self, rp, uid, descr, sandbox=None):
+    def task_dict(self, rp, uid, descr, sandbox=None, pid=None):
         td = rp.TaskDescription(from_dict=descr)
         td.verify()
         # Task.__init__ expands the short forms (no URL completion yet)
@@ -42,7 +42,9 @@ class Tree(object):
         expand_description(td)
         td = td.as_dict()
         tsbox = sandbox or (self.psbox + '/' + uid + '/')
-        return {'uid': uid, 'description': td, 'pilot': self.pid, 'state': 'TMGR_STAGING_INPUT_PENDING',
+        # `pid` only changes which pilot the task is bound to (the client side stager groups a bulk by pilot);
+        # the sandboxes stay those of this tree
+        return {'uid': uid, 'description': td, 'pilot': pid or self.pid, 'state': 'TMGR_STAGING_INPUT_PENDING',
                 'client_sandbox': self.client, 'endpoint_fs': 'file://localhost', 'resource_sandbox': self.url(self.rsbox),
                 'session_sandbox': self.url(self.ssbox), 'pilot_sandbox': self.url(self.psbox),
                 'task_sandbox': self.url(tsbox), 'task_sandbox_path': tsbox, 'stdout': '', 'stderr': '',
